@@ -106,7 +106,7 @@ type checker struct {
 	drv   *Nadrv
 	tmp   string
 	n     int
-	plain bool // the pair being judged lies in the fragment of the whole-vsys theorems (PlainPair)
+	plain bool // the pair being judged lies in a fragment of the whole-vsys theorems (PlainPair or GrpPair)
 }
 
 func encScripts(m map[string][][4]int) string {
@@ -264,12 +264,14 @@ func propOf(symptom string) string {
 
 func (c *checker) fail(symptom, pred, what string, in caseInput, extra map[string]any) {
 	c.res.Count("oracle:" + propOf(symptom) + ":" + pred)
+	if c.plain {
+		c.res.Count("fragment:failure-inside-proven-fragment:" + symptom)
+	}
 	if propOf(symptom) != c.prop {
 		return
 	}
 	if c.plain {
-		c.res.Count("fragment:failure-inside-proven-fragment")
-		what += " [this pair lies in the fragment for which the whole-vsys theorems panos_*_partial are proved of the model: the code does not behave like the model here]"
+		what += " [this pair lies in a fragment (PlainPair / GrpPair) for which whole-vsys theorems panos_*_partial are proved of the model: the code does not behave like the model here]"
 	}
 	sig := map[string]any{"pred": pred, "backend": "PAN-OS", "symptom": symptom}
 	for k, v := range extra {
@@ -462,14 +464,14 @@ func (c *checker) runCase(in caseInput, deep bool) (devVsys []panos.VerifVsys, r
 			continue
 		}
 		res.Count("oracle:pairs")
-		c.plain = fl["plain"] == "1"
+		c.plain = fl["plain"] == "1" || fl["grp"] == "1"
 		if fl["grp"] == "1" {
 			res.Count("fragment:grp-pair")
 			if fl["plain"] != "1" {
 				res.Count("fragment:grp-pair-with-groups")
 			}
 		}
-		if c.plain {
+		if fl["plain"] == "1" {
 			res.Count("fragment:plain-pair")
 			if fl["tnames"] == "1" && fl["srvnd"] == "1" {
 				res.Count("fragment:plain-pair-idempotence-hyps")
